@@ -58,6 +58,38 @@ def gen_content(rng, max_images=8, unique=True):
             if rng.random() < 0.5:
                 twin["volume_id"] = "twin"
             K["imgs"].append(twin)
+    # near twins: another image (own path, own checksums) that differs from an existing one in EXACTLY ONE identity
+    # attribute - legal, and the sharpest test of anything keyed on a partial identity
+    for i in range(len(K["imgs"])):
+        if rng.random() < 0.2:
+            src = K["imgs"][i]
+            t = dict(src)
+            t["checksums"] = dict((k, hexstr(rng, len(v))) for k, v in src["checksums"].items())
+            t["additional_variants"] = list(src["additional_variants"])
+            t["path"] = src["path"] + ".near%d" % len(K["imgs"])
+            attr = pick(rng, ["subvariant", "disc_number", "additional_variants", "unified", "arch", "format"])
+            if attr == "subvariant":
+                t["subvariant"] = src["subvariant"] + "X"
+            elif attr == "disc_number":
+                t["disc_number"] = src["disc_number"] + 1
+            elif attr == "additional_variants":
+                if not src["unified"]:
+                    src["unified"] = True          # both unified, they differ only in the additional variants
+                    t["unified"] = True
+                t["additional_variants"] = list(src["additional_variants"]) + [pick(rng, VARIANTS)]
+            elif attr == "unified":
+                t["unified"] = not src["unified"]
+                if not t["unified"]:
+                    t["additional_variants"] = []
+            elif attr == "arch":
+                t["arch"] = pick(rng, [a for a in pools.ARCHES + ["src"] if a != src["arch"]])
+            else:
+                t["format"] = pick(rng, [f for f in pools.IMAGE_FORMATS if f != src["format"]])
+            key = (t["subvariant"], t["type"], t["format"], t["arch"], t["disc_number"], t["unified"], tuple(t["additional_variants"]))
+            if not unique or key not in seen:
+                seen.add(key)
+                seen.add((src["subvariant"], src["type"], src["format"], src["arch"], src["disc_number"], src["unified"], tuple(src["additional_variants"])))
+                K["imgs"].append(t)
     variants = subset(rng, VARIANTS, 1, 3)
     cell_arches = pools.ARCHES if rng.random() < 0.8 else pools.ARCHES + ["noarch", "ia64", "riscv64", "loongarch64", "armv7hl", "amd64", "arm64"]
     for i, img in enumerate(K["imgs"]):
